@@ -180,6 +180,27 @@ Definition check_gmat (exact cm : bool) (k : mapkind) (raw : raw_t) (variants so
   && forall3b (xo_pt k) (gmat_gaps rows variants) (map q_of_float (gdist1g_f (map fst sv) gf None None)) xoprob
   && ungrouped_raises.
 
+(** one call of a SESSION on one variant matrix (the matrix already carries vrnt_genpos / vrnt_xoprob from its constructor or from
+    earlier calls): the map given to THIS call is [raw] reduced to [mask] (markers that select / remove / prune /
+    remove_discrepancies left in it, over the sorted rows; all [true] for an unreduced map); what the matrix stores after the call
+    is compared as in [check_gmat]; [xoprob = None] for interp_genpos (which does not assign vrnt_xoprob) *)
+Definition select_frows (frows : list frow) (mask : list bool) : list frow :=
+  sort_frows (map fst (filter snd (combine frows mask))).
+Definition check_gmat_call (exact cm : bool) (k : mapkind) (raw : raw_t) (mask : list bool) (variants sorted_variants : list (Z * Z))
+    (genpos : list ext) (genpos_f : list float) (xoprob : option (list ext)) : bool :=
+  let rows := select_rows (gm_rows (to_rows cm raw)) mask in
+  let frows := select_frows (sort_frows (to_frows cm raw)) mask in
+  let sv := sort_pairs variants in
+  let gf := interp_genpos_f frows sv in
+  (length mask =? length raw)%nat
+  && pairs_eqb sorted_variants sv
+  && cmp exact genpos (gmat_genpos rows variants)
+  && fl_eqb gf genpos_f
+  && match xoprob with
+     | None => true
+     | Some xo => forall3b (xo_pt k) (gmat_gaps rows variants) (map q_of_float (gdist1g_f (map fst sv) gf None None)) xo
+     end.
+
 (** ** crossover probabilities as extended reals (specification side of [xo_pt]) *)
 From Coq Require Import Reals Qreals.
 Definition mapfn_ext (k : mapkind) (g : ext) : xreal :=
